@@ -1,5 +1,6 @@
 """Spec-level builtins, spec functions and modular (contract) calls."""
 import ast
+import os
 import z3
 from .vtypes import *  # noqa
 from .state import State, Unsupported, StaleContract, fresh_name, default_of
@@ -241,6 +242,21 @@ class SpecMixin:
         n = st.list_len(lty, ref)
         e = st.list_elems(lty, ref)
         es = lty.args[0].sort()
+        if not z3.is_const(e):
+            e2 = z3.simplify(e)
+            if z3.is_quantifier(e2):
+                e = e2
+        if z3.is_quantifier(e):
+            # element array given by a lambda term (comprehension): name it, lambdas cannot occur in patterns
+            if not hasattr(self, "_lamnames"):
+                self._lamnames = {}
+            a = self._lamnames.get(e.get_id())
+            if a is None:
+                a = z3.Const(fresh_name("lam"), e.sort())
+                self._lamnames[e.get_id()] = a
+                j = z3.Int(fresh_name("j"))
+                self.facts.append(z3.ForAll([j], a[j] == e[j], patterns=[a[j]]))
+            e = a
         MEM = self.uf("MEM_" + str(es), [I, z3.ArraySort(I, es)], z3.ArraySort(es, B))
         WIT = self.uf("WIT_" + str(es), [I, z3.ArraySort(I, es), es], I)
         self.mem_facts(n, e, es)
@@ -255,7 +271,10 @@ class SpecMixin:
             self._memfacts.add(key)
             j = z3.Int(fresh_name("j"))
             x = z3.Const(fresh_name("x"), es)
-            self.facts.append(z3.ForAll([j], z3.Implies(z3.And(0 <= j, j < n), m[e[j]]), patterns=[e[j]]))
+            try:
+                self.facts.append(z3.ForAll([j], z3.Implies(z3.And(0 <= j, j < n), m[e[j]]), patterns=[e[j]]))
+            except z3.Z3Exception:  # element array given by a lambda term: no usable pattern
+                self.facts.append(z3.ForAll([j], z3.Implies(z3.And(0 <= j, j < n), m[e[j]])))
             self.facts.append(z3.ForAll([x], z3.Implies(m[x], z3.And(0 <= WIT(n, e, x), WIT(n, e, x) < n,
                                                                      e[WIT(n, e, x)] == x)), patterns=[m[x]]))
 
@@ -584,8 +603,8 @@ class SpecMixin:
             for x in es.pc[len(st.pc):]:
                 st.assume(x)
             es.pc = list(st.pc)
-            if ctx.binders:
-                raise Unsupported("contract call inside a binder")
+            # inside a comprehension (pure callee only) the fact is added to the body state; comp_parts quantifies what
+            # the body state gained over the bound variable and its guard
             st.assume(z3.Implies(ctx.guard, f) if not z3.is_true(ctx.guard) else f)
         return res if res is not None else mk_none()
 
